@@ -392,10 +392,12 @@ def gen_history(rng: random.Random, role=None, length=None, malformed=0.08, chun
         else:
             k = rng.choice([1, 1, 1, 2, 3])
             searches = [i for i, kd in sh.open.items() if kd == "search"]
-            if role == CLIENT and searches and rng.random() < 0.15:
-                # a burst for ONE search in ONE delivery: entries/references around (and after) its done
-                sid = rng.choice(searches)
-                ms = [[sid, msgs.g_op(rng, rng.choice([4, 4, 6, 5]), depth=0), []] for _ in range(rng.randint(2, 5))]
+            if role == CLIENT and sh.open and rng.random() < 0.15:
+                # a burst for ONE operation in ONE delivery: entries / references around (and after) the done of a
+                # search, or entries / references / final responses for an id that is not a search at all
+                sid = rng.choice(searches) if searches and rng.random() < 0.7 else rng.choice(sorted(sh.open))
+                kinds = [4, 4, 6, 5] if sh.open[sid] == "search" else [4, 4, 6, 6, 8, 5]
+                ms = [[sid, msgs.g_op(rng, rng.choice(kinds), depth=0), []] for _ in range(rng.randint(2, 5))]
             else:
                 ms = [gen_response_msg(rng, sh) if role == CLIENT else gen_request_msg(rng, sh) for _ in range(k)]
             for m in ms:
